@@ -131,3 +131,16 @@ sms = open('/repo/' + sm).read()
 size = sms[sms.index('\t// check if message body is too long'):sms.index('\temptyByteArr := make([]byte, len(recipient))')]
 rec = sms[sms.index('\temptyByteArr := make([]byte, len(recipient))'):sms.index('\t// serialize message')]
 mk('C05+C08+C12-sendmessage-checks-swapped', sm, sms, sms.replace(size, '').replace(rec, rec + size))
+
+# ---- an unexported helper gets another parameter (callers pass what it used to compute itself)
+def sub_all(path, pairs):
+    tr = []
+    for a, b in pairs:
+        tr += [path, a, b]
+    return tr
+mk('C05+C06+C07+C08+C09+C15-sendmessage-extra-param',
+   sm, 'func (k msgServer) sendMessage(\n\tctx sdk.Context,\n', 'func (k msgServer) sendMessage(\n\tctx sdk.Context,\n\tversion uint32,\n',
+   sm, '\t\tVersion:           types.MessageBodyVersion,\n\t\tSourceDomain:      types.NobleDomainId,', '\t\tVersion:           version,\n\t\tSourceDomain:      types.NobleDomainId,',
+   sm, '\terr = k.sendMessage(\n\t\tctx,\n', '\terr = k.sendMessage(\n\t\tctx,\n\t\ttypes.MessageBodyVersion,\n',
+   K + 'msg_server_send_message_with_caller.go', 'k.sendMessage(\n\t\tctx,\n', 'k.sendMessage(\n\t\tctx,\n\t\ttypes.MessageBodyVersion,\n',
+   K + 'msg_server_replace_message.go', 'k.sendMessage(\n\t\tctx,\n', 'k.sendMessage(\n\t\tctx,\n\t\ttypes.MessageBodyVersion,\n')
